@@ -1407,6 +1407,11 @@ class Interp:
             lo = self.eval(e.slice.lower, env, module) if e.slice.lower else None
             hi = self.eval(e.slice.upper, env, module) if e.slice.upper else None
             if e.slice.step is not None:
+                step = self.eval(e.slice.step, env, module)
+                if isinstance(step, int) and not isinstance(step, bool) and isinstance(o, (str, list, tuple)) and (lo is None or isinstance(lo, int)) and (hi is None or isinstance(hi, int)):
+                    return o[lo:hi:step]
+                if hasattr(o, 'slice_step'):
+                    return o.slice_step(self, lo, hi, step, e)
                 raise CheckerError('slice step unsupported')
             return self.slice(o, lo, hi, e)
         k = self.eval(e.slice, env, module)
@@ -1918,15 +1923,24 @@ class Interp:
         items = self.iterate(args[0], node) if len(args) == 1 else list(args)
         if all(isinstance(x, int) for x in items):
             return max(items)
-        if len(items) == 2 and all(self._intish(x) for x in items):
-            a, b = self.ex(items[0]), self.ex(items[1])
-            return self.wrap(z3.If(a >= b, a, b))
+        if len(items) >= 2 and all(self._intish(x) for x in items) and not kwargs:
+            r = self.ex(items[0])
+            for x in items[1:]:
+                b = self.ex(x)
+                r = z3.If(b > r, b, r)
+            return self.wrap(r)
         raise CheckerError('max of symbolic values unsupported')
 
     def bi_min(self, args, kwargs, node):
         items = self.iterate(args[0], node) if len(args) == 1 else list(args)
         if all(isinstance(x, int) for x in items):
             return min(items)
+        if len(items) >= 2 and all(self._intish(x) for x in items) and not kwargs:
+            r = self.ex(items[0])
+            for x in items[1:]:
+                b = self.ex(x)
+                r = z3.If(b < r, b, r)
+            return self.wrap(r)
         raise CheckerError('min of symbolic values unsupported')
 
     def bi_sorted(self, args, kwargs, node):
